@@ -60,8 +60,9 @@ static inline void validate(struct obj *p, const char *where)
 			     cfgname, where, (unsigned long long) p->id, (unsigned long long) p->state);
 }
 
+static int quiet_active;	/* pollers currently inside a quiet point */
 struct sec { uint64_t b, e; };
-struct rthr { pthread_t tid; int idx; struct vp_rng rng; struct sec *secs; size_t nsec, cap; uint64_t total; } rthr[16];
+struct rthr { pthread_t tid; int idx; struct vp_rng rng; struct sec *secs; size_t nsec, cap; uint64_t total, own_handles; } rthr[16];
 
 static void *reader_main(void *arg)
 {
@@ -82,9 +83,27 @@ static void *reader_main(void *arg)
 			p[i] = rcu_dereference(slots[vp_rand_n(&t->rng, NSLOTS)]);
 			validate(p[i], "deref");
 		}
+		struct urcu_gp_poll_state own_h;
+		int own = vp_rand_n(&t->rng, 6) == 0 && !VP_LOAD(quiet_active);	/* quiet points: nobody but the straggler starts a poll */
+		if (own) {
+			/* the polling API is legal inside a read-side section (qsbr: on an online thread) and must not
+			 * act as a quiescent state for the caller */
+			own_h = start_poll_synchronize_rcu();
+			(void) poll_state_synchronize_rcu(own_h);
+		}
 		vp_delay_heavy(&t->rng);
 		for (int i = 0; i < nobj; i++)
 			validate(p[i], "after-delay");
+		if (own) {
+			/* this very section began before that start_poll: the handle cannot be complete yet */
+			if (poll_state_synchronize_rcu(own_h))
+				vp_violation("poll-true-inside-the-section-that-preceded-start_poll",
+					     "cfg=%s reader %d: handle %lu obtained inside a read-side section polled complete while that same section is still open",
+					     cfgname, t->idx, own_h.grace_period_id);
+			for (int i = 0; i < nobj; i++)
+				validate(p[i], "after-own-poll");
+			t->own_handles++;
+		}
 #if !VP_IS_QSBR
 		uint64_t e = ts_before();
 		rcu_read_unlock();
@@ -167,6 +186,7 @@ static void *poller_main(void *arg)
 	while ((started < handles_per_poller || nheld > 0) && !vp_nviolations()) {
 		if (quiet_every > 0 && !in_quiet && started >= next_quiet && next_quiet < handles_per_poller) {
 			in_quiet = 1;
+			__atomic_add_fetch(&quiet_active, 1, __ATOMIC_SEQ_CST);
 			my_gen = VP_LOAD(quiet_gen);
 			if (__atomic_add_fetch(&quiet_entered, 1, __ATOMIC_SEQ_CST) == n_pollers) {
 				__atomic_store_n(&quiet_entered, 0, __ATOMIC_SEQ_CST);
@@ -226,6 +246,7 @@ static void *poller_main(void *arg)
 				continue;
 			}
 			in_quiet = 0;
+			__atomic_sub_fetch(&quiet_active, 1, __ATOMIC_SEQ_CST);
 			next_quiet += quiet_every;
 		}
 		if (!in_quiet && started < handles_per_poller && nheld < NHELD && (nheld == 0 || vp_rand_n(&t->rng, 3))) {
@@ -428,6 +449,12 @@ int main(int argc, char **argv)
 	vp_counter_add("nontrivial", nontriv);
 	vp_counter_add("polls", polls);
 	vp_counter_add("true_rechecks", rechecks);
+	{
+		uint64_t oh = 0;
+		for (int i = 0; i < n_readers; i++)
+			oh += rthr[i].own_handles;
+		vp_counter_add("handles_taken_and_polled_inside_a_reader_section", oh);
+	}
 	vp_counter_add("quiet_points_all_handles_completed_without_new_start_poll", quiet_points);
 	vp_counter_add("final_start_poll_while_worker_callback_between_gp_and_lock", straggler_in_window);
 	vp_counter_add("straggler_window_missed", straggler_missed);
